@@ -5,6 +5,8 @@
 mod attrs;
 mod av;
 mod conc;
+mod httpd;
+mod net;
 mod cost;
 mod ops;
 mod payload;
@@ -106,6 +108,7 @@ fn main() {
         "attrs" => attrs::run(&args),
         "ops" => ops::run(&args),
         "ready" => ready::run(&args),
+        "net" => net::run(&args),
         "cost" => cost::run(&args),
         "cost-child" => cost::cost_child(&args),
         "bomb-child" => total::bomb_child(&args),
